@@ -186,11 +186,23 @@ fn charset_table(ctx: &Ctx, rep: &mut Report) {
     rep.parts.push(json!({"part":"charset-table","cases":n,"all_scalars_from_U+00A0":all.len()}));
 }
 
+static SYS_SWEEP: LockStep = LockStep { property: "C04", probes: false, seed: Some(&super::sweep::fill) };
+
+fn alpha_sweep(cfg: &Cfg) -> Vec<Op> {
+    let mut v = super::sweep::placements(cfg, false);
+    v.extend(super::sweep::print_funcs(cfg));
+    v
+}
+
+static SYS_MODES: LockStep = LockStep { property: "C04", probes: false, seed: None };
+
 pub fn run(ctx: &Ctx) -> Report {
     let mut rep = Report::new();
     let p = parts!(ctx.tier, &SYS);
     run_part(ctx, &mut rep, &p);
     run_part(ctx, &mut rep, &medium_part(ctx.tier));
+    run_part(ctx, &mut rep, &super::sweep::sweep_part("print-large-screen-parameter-sweep", &SYS_SWEEP, &alpha_sweep, ctx.tier));
+    run_part(ctx, &mut rep, &super::sweep::mode_part(&SYS_MODES, ctx.tier));
     charset_table(ctx, &mut rep);
     rep.rule = "lock-step BFS of (real Vt, reference terminal) over single printable chars (ASCII, drawing range, DEL, Latin-1, CJK, space), a 2-char text, REP with counts around the width, DECAWM/IRM toggles, SO/SI, G0/G1 designations, and setup ops (cursor placement incl. last column and rows below the bottom margin, margins, pen, resizes); full grid, scrollback, cursor, hidden modes and the wrap mark of the row left by a wrap are compared after every transition; plus the complete 0x20-0x7f x charset x slot translation table".into();
     rep.assumptions = vec!["readings R1-R7 of DESIGN.md §3.2 (R3: wrap on the last row below the bottom margin does not scroll and does not mark)".into()];
@@ -206,6 +218,12 @@ pub fn replay(ctx: &Ctx, v: &Value) -> bool {
     let tier = if v["tier"] == "thorough" { Tier::Thorough } else { Tier::Quick };
     if v["part"] == "print-lockstep-medium-screen" {
         return replay_part(ctx, &medium_part(tier), v);
+    }
+    if v["part"] == "mode-list-shapes" {
+        return replay_part(ctx, &super::sweep::mode_part(&SYS_MODES, tier), v);
+    }
+    if v["part"] == "print-large-screen-parameter-sweep" {
+        return replay_part(ctx, &super::sweep::sweep_part("print-large-screen-parameter-sweep", &SYS_SWEEP, &alpha_sweep, tier), v);
     }
     let p = parts!(tier, &SYS);
     replay_part(ctx, &p, v)
